@@ -106,6 +106,21 @@ def run_sharded(fn, tier, seed, nworkers=16, extra=None):
     return total
 
 
+def load_name_collisions():
+    """Pairs of valid credential strings that collide under common 32-bit string hashes (inputs only; using any two
+    different names is sound, the collisions only make partial cache tags inside the library visible)."""
+    p = os.path.join(ROOT, "corpus", "name_collisions.json")
+    out = []
+    try:
+        for e in json.load(open(p)):
+            a, b = e["a"], e["b"]
+            if a != b and 1 <= len(a) <= 16 and 1 <= len(b) <= 16 and all(0x20 <= ord(c) <= 0x7E for c in a + b):
+                out.append((e["hash"], a, b))
+    except Exception:
+        pass
+    return out
+
+
 def rng_for(seed, *path):
     return random.Random("verif:%s:%s" % (seed, ":".join(str(p) for p in path)))
 
